@@ -5,21 +5,6 @@ implementation is left in) and to generate coq/Findings/C13.v (tools/c13_mkcoq.p
 site: the model's taint name; loc: a location whose view differs after the failing call (for the Coq witness)."""
 
 FINDINGS = [
-    {'key': 'set-unique-index-not-undone', 'site': 'TSetIdx', 'schema': 'S1', 'loc': 'LIdx 0 [1] [VInt 2]',
-     'what': 'obj.set(u=2, v=<taken>) raises CacheIndexError on v but leaves indexes[u] = {2: obj} and drops the old key, while obj.u is unchanged '
-             '(Entity.set defines undo_func but never registers it): a later unrelated A(u=2) fails, A(u=<old>) creates a duplicate',
-     'ops': [["new", 0, 1, [[1, ["i", 0]], [2, ["i", 0]], [5, ["i", 0]]]], ["new", 0, 2, [[1, ["i", 1]], [2, ["i", 1]], [5, ["i", 0]]]],
-             ["setm", 0, [[1, ["i", 2]], [2, ["i", 1]]]]]},
-    {'key': 'set-status-wbits-queue-not-undone', 'site': 'TSetBits', 'schema': 'S1', 'loc': 'LStatus 0',
-     'what': 'a failing obj.set(...) on a saved object leaves it "modified", with the write bits set and queued in objects_to_save: '
-             'the next commit issues an UPDATE for a call that raised',
-     'ops': [["new", 0, 1, [[1, ["i", 0]], [5, ["i", 0]]]], ["new", 0, 2, [[1, ["i", 1]], [5, ["i", 0]]]], ["commit"],
-             ["setm", 0, [[1, ["i", 1]]]]]},
-    {'key': 'set-undo-replayed-forward', 'site': 'TSetForward', 'schema': 'S1', 'loc': 'LQueue',
-     'what': 'Entity.set replays undo_funcs un-reversed: with two queued partners the first closure pops the wrong object, an AssertionError '
-             'replaces the original exception and the remaining undo is skipped (children stay re-parented, parent collections changed)',
-     'ops': [["new", 0, 1, [[5, ["i", 0]]]], ["new", 0, 2, [[5, ["i", 0]]]], ["new", 4, 1, [[1, ["o", 0]]]], ["new", 4, 2, [[1, ["o", 0]]]],
-             ["new", 5, 1, [[1, ["o", 1]]]], ["commit"], ["setm", 1, [[9, ["os", [2, 3]]], [10, ["os", []]]]]]},
     {'key': 'set-collection-kwarg-not-undone', 'site': 'TSetReverse', 'schema': 'S1', 'loc': 'LItem 0 7 1',
      'what': 'obj.set(tags=[t], deps=[]) raising on deps leaves obj.tags == [t] on this side (Set.__set__ called with undo_funcs mutates '
              'setdata after its try block) while t.aa does not contain obj; the link row is inserted at commit',
@@ -54,6 +39,30 @@ FINDINGS = [
 
 # failing calls the undo protocol handles correctly (state must be restored exactly): replayed on every run, with every fault k
 CLEAN = [
+    # many-to-many: remove(t1) then assignment that re-adds t1, adds t3 and drops t2 - pending added/removed must stay in sync
+    # (repo 83f8eb8; before it the removal of t2 was recorded in a stale local and its DELETE was lost), then a refused call
+    {'name': 'm2m-remove-then-assign-bookkeeping', 'schema': 'S1',
+     'ops': [["new", 0, 1, [[5, ["i", 0]]]], ["new", 2, 1, [[1, ["os", [0]]]]], ["new", 2, 2, [[1, ["os", [0]]]]], ["new", 2, 3, []], ["commit"],
+             ["rem", 0, 7, [1]], ["set", 0, 7, ["os", [1, 3]]], ["set", 0, 5, ["n"]], ["commit"], ["set", 0, 5, ["n"]]]},
+    # one-to-many: remove / assignment record the removal once (repo 11753a1), then a refused call
+    {'name': 'o2m-remove-and-assign-bookkeeping', 'schema': 'S2',
+     'ops': [["new", 0, 1, [[8, ["i", 0]]]], ["new", 5, 1, []], ["new", 5, 2, [[3, ["o", 1]]]], ["new", 5, 3, [[3, ["o", 1]]]], ["commit"],
+             ["rem", 1, 2, [2]], ["set", 0, 8, ["n"]], ["set", 1, 2, ["os", []]], ["set", 0, 8, ["n"]], ["commit"]]},
+    # repaired by repo cd0fda9 (Entity.set registers its undo closure, undoes in reverse order): formerly the findings
+    # set-unique-index-not-undone, set-status-wbits-queue-not-undone, set-undo-replayed-forward
+    {'name': 'set-unique-index-restored', 'schema': 'S1',
+     'ops': [["new", 0, 1, [[1, ["i", 0]], [2, ["i", 0]], [5, ["i", 0]]]], ["new", 0, 2, [[1, ["i", 1]], [2, ["i", 1]], [5, ["i", 0]]]],
+             ["setm", 0, [[1, ["i", 2]], [2, ["i", 1]]]]]},
+    {'name': 'set-status-wbits-queue-restored', 'schema': 'S1',
+     'ops': [["new", 0, 1, [[1, ["i", 0]], [5, ["i", 0]]]], ["new", 0, 2, [[1, ["i", 1]], [5, ["i", 0]]]], ["commit"],
+             ["setm", 0, [[1, ["i", 1]]]]]},
+    {'name': 'set-undo-in-reverse-order', 'schema': 'S1',
+     'ops': [["new", 0, 1, [[5, ["i", 0]]]], ["new", 0, 2, [[5, ["i", 0]]]], ["new", 4, 1, [[1, ["o", 0]]]], ["new", 4, 2, [[1, ["o", 0]]]],
+             ["new", 5, 1, [[1, ["o", 1]]]], ["commit"], ["setm", 1, [[9, ["os", [2, 3]]], [10, ["os", []]]]]]},
+    # an object already queued by an earlier successful set(): the failing set() must not pop it (cd0fda9: `if queued`)
+    {'name': 'set-fails-on-already-queued-object', 'schema': 'S1',
+     'ops': [["new", 0, 1, [[1, ["i", 0]], [5, ["i", 0]]]], ["new", 0, 2, [[1, ["i", 1]], [5, ["i", 0]]]], ["commit"],
+             ["setm", 0, [[5, ["i", 3]]]], ["setm", 0, [[1, ["i", 1]], [5, ["i", 4]]]]]},
     {'name': 'cascade-refusal-midway', 'schema': 'S1',
      'ops': [["new", 0, 1, [[5, ["i", 0]]]], ["new", 4, 1, [[1, ["o", 0]]]], ["new", 4, 2, [[1, ["o", 0]]]], ["new", 5, 1, [[1, ["o", 0]]]],
              ["commit"], ["del", 0]]},
